@@ -1315,7 +1315,8 @@ class BaseImage(metaclass=ImageMeta):
 
     def _close_image(self, img: PIL.Image.Image) -> None:
         """Closes the given PIL image instance if it isn't the instance' source."""
-        if img is not self._source:
+        # The instance may have been finalized while an iterator still uses the image
+        if img is not getattr(self, "_source", None):
             img.close()
 
     def _display_animated(
@@ -2116,10 +2117,19 @@ class ImageIterator:
         try:
             self._animator.close()
             del self._animator
-            self._image._close_image(self._img)
+        except AttributeError:
+            pass
+
+        try:
+            img = self._img
             del self._img
         except AttributeError:
             pass
+        else:
+            # The image instance may have been finalized (hence, its source deleted) but
+            # a source PIL image must never be closed.
+            if self._image._source_type is not ImageSource.PIL_IMAGE:
+                self._image._close_image(img)
 
     def seek(self, pos: int) -> None:
         """Sets the frame number to be yielded on the next iteration without affecting
@@ -2211,7 +2221,7 @@ class ImageIterator:
                 self._loop_no = repeat = repeat - 1
 
         # For consistency in behaviour
-        if img is image._source:
+        if img is getattr(image, "_source", None):
             img.seek(0)
 
 
